@@ -29,7 +29,7 @@ CORR = ["Corr/FsCorr.v"]
 
 # ------------------------------------------------------------------ building
 def build_case(run, shoot, mod, idx, rng, cmd=None, force_mode=None, force_invoke=None, expect_fail=None,
-               traced=True, fixed=False, force_kinds=(), supfix=False, obstacle=None, nothing=False):
+               traced=True, fixed=False, force_kinds=(), supfix=False, obstacle=None, nothing=False, rawflag=None):
     """create the directory state of one case and run shoot on it under strace.
     returns the case dict (JSON-able except for bytes, which are latin-1 strings)"""
     cmd = cmd or fsgen.CMDS[idx % 4]
@@ -58,6 +58,9 @@ def build_case(run, shoot, mod, idx, rng, cmd=None, force_mode=None, force_invok
         hist = [h0]
     else:
         final = fsgen.gen_inv(rng, p, root, mode=force_mode, invoke=force_invoke)
+    if rawflag:
+        # -raw / -r (unformatted source): same names, same protocol, same cleanup as without it
+        final.flags = list(final.flags) + [rawflag]
     if final.mode == "star_space" and not final.dirdot() and not fixed:
         final.invoke = rng.choice(["pkg", "pkgdot"])     # the other combination is finding K_clean_own_output
     for inv in hist + [final]:
@@ -830,6 +833,15 @@ def case_plan(run, fixed=False):
         for j in range(3 if run.thorough() else 1):
             plan.append((ci, ["star", "file", "star"][(ci + run.seed + j) % 3], ["pkg", "parent"][(ci + j) % 2], None,
                          ("stale_same_cmd", "stale_same_cmd_file", "stale_no_newline", "hand_lookalike"), "NOTHING"))
+    # -raw / -r on every subcommand: per subcommand one all-in-one run (Clean armed, over per-type outputs of an earlier
+    # history where the seed provides one, plus a planted stale file) and one run of another mode
+    rmodes = ["types", "file", "filesep", "starsep"]
+    for ci in range(4):
+        plan.append((ci, "star", ["pkg", "parent"][(ci + run.seed) % 2], None, ("stale_same_cmd", "hand_outputlike"),
+                     ["-raw", "-r"][(ci + run.seed) % 2]))
+        for j in range(3 if run.thorough() else 1):
+            plan.append((ci, rmodes[(ci + run.seed + j) % 4], ["parent", "pkg", "abs"][(ci + j) % 3], None,
+                         ("stale_same_cmd",), ["-r", "-raw"][(ci + run.seed + j) % 2]))
     # the name of an output pre-exists as a symbolic link (inside / outside / dangling) or as a second name of a
     # hand-written file
     for k, ob in enumerate(fsgen.OBSTACLES):
@@ -875,18 +887,19 @@ def main(run):
         ci, mode, invoke, fail, fkinds = plan[i][:5]
         ob = plan[i][5] if len(plan[i]) > 5 else None
         nothing = ob == "NOTHING"
-        ob = None if nothing else ob
+        rawflag = ob if ob in ("-raw", "-r") else None
+        ob = None if (nothing or rawflag) else ob
         for attempt in range(3):
             # a case is a function of its seed: a traced run that does not finish in time (seen once in
             # ~1000 runs on a heavily loaded machine) is rebuilt from scratch and repeated
             c = build_case(run, shoot, mod, i, random.Random(seeds[i]), cmd=fsgen.CMDS[ci], force_mode=mode,
-                           force_invoke=invoke, expect_fail=fail, fixed=fixed, force_kinds=fkinds, supfix=supfix, obstacle=ob, nothing=nothing)
+                           force_invoke=invoke, expect_fail=fail, fixed=fixed, force_kinds=fkinds, supfix=supfix, obstacle=ob, nothing=nothing, rawflag=rawflag)
             if not c["timed_out"]:
                 return c
             retried.append(i)
         # three timeouts under strace: does shoot itself terminate on this input?
         c2 = build_case(run, shoot, mod, i, random.Random(seeds[i]), cmd=fsgen.CMDS[ci], force_mode=mode,
-                        force_invoke=invoke, expect_fail=fail, traced=False, fixed=fixed, force_kinds=fkinds, supfix=supfix, obstacle=ob, nothing=nothing)
+                        force_invoke=invoke, expect_fail=fail, traced=False, fixed=fixed, force_kinds=fkinds, supfix=supfix, obstacle=ob, nothing=nothing, rawflag=rawflag)
         if c2["timed_out"]:
             c2["nonterminating"] = True
             return c2
@@ -1063,6 +1076,7 @@ def main(run):
         "cases_with_replaced_outputs": count(lambda c: any(o[0] == "Rename" and o[2] in {n for n, _, _ in pkg_files(c["before"])} for o in c["ops"])),
         "cases_with_victims": count(lambda c: any(o[0] == "Unlink" for o in c["ops"])),
         "cases_with_hard_links": count(lambda c: bool(c["links"])),
+        "cases_with_raw_flag": count(lambda c: "-raw" in c["args"] or "-r" in c["args"]),
         "cases_generating_nothing_next_to_stale_outputs": count(lambda c: c.get("nothing")),
         "cases_with_flags_after_dir_from_a_twin_package": count(lambda c: c["invoke"] in fsgen.TRAIL_INVOKE),
         "entries_at_output_names": {ob: count(lambda c, ob=ob: ob in (c.get("obstacle") or {}).values()) for ob in fsgen.OBSTACLES},
